@@ -12,6 +12,7 @@ EXTRA_REQ = "Spec.ListSpec Model.TimeArray"
 SPEC_FN = "c17_spec_ok"
 MODEL_FN = "c17_model_ok"
 PROPS_FILE = "Props/C17.v"
+SUBCHECKS = ["c02"]   # two arrays built from one another are two lists: C02's array paths write to one and read the other
 USES_GEN = []
 RULE = ("three-way: implementation, Coq model/spec, and a REAL Python list run the same operation from the same state. "
         "EXHAUSTIVE single-step sub-space: len <= 4, start/stop in {None,-6..6}, step in {None,1,-1,2,-2,3,0}, replacement "
@@ -120,6 +121,15 @@ def _apply(obj, op, X, A, is_list):
     if k == "clear":
         obj.clear()
         return ["none"]
+    if k in ("index", "count") and op.get("foreign") and "s" not in op and not is_list and isinstance(op["v"], int) and op["v"] % (1 << 64) == 0 \
+            and abs(op["v"] >> 64) < 10**9:
+        # the probe is an EQUAL value of another type (datetime.timedelta / datetime.datetime): a list finds it with ==
+        import datetime as _dt
+        secs = op["v"] >> 64
+        probe = _dt.timedelta(seconds=secs) if X.__name__ == "TimeDelta" else _dt.datetime(1904, 1, 1, tzinfo=_dt.timezone.utc) + _dt.timedelta(seconds=secs)
+        if not (X.from_ticks(op["v"]) == probe):
+            raise RuntimeError("the foreign probe is not equal to the element it stands for")
+        return ["int", obj.count(probe) if k == "count" else obj.index(probe)]
     if k == "index":
         if "s" in op:
             args = (op["s"],) if op.get("e", "omit") == "omit" else (op["s"], op["e"])
@@ -368,7 +378,9 @@ def _rand_op(rng, n, pool):
         if rng.random() < 0.6:
             op["e"] = rng.randrange(-n - 2, n + 3)
         return op
-    if k in ("append", "remove", "index", "count"):
+    if k in ("index", "count"):
+        return {"op": k, "v": v(), "foreign": rng.random() < 0.5}
+    if k in ("append", "remove"):
         return {"op": k, "v": v()}
     if k in ("extend", "iadd"):
         kind = rng.choice(["list", "tuple", "gen", "array", "self", "notiter", "none"])
@@ -385,7 +397,7 @@ def _rand_op(rng, n, pool):
 def gen_cases(rng, tier):
     big = tier != "quick"
     cases = []
-    pool = [0, 1, -1, 2, 3, 7, MAX128, MIN128, (1 << 64) - 1, -(1 << 64), (1 << 63), 12345678901234567890123]
+    pool = [0, 1, -1, 2, 3, 7, MAX128, MIN128, (1 << 64) - 1, -(1 << 64), (1 << 63), 12345678901234567890123, 5 << 64, 86400 << 64]
     # exhaustive single-step slices on short arrays
     rngs = [None] + list(range(-6, 7))
     steps_ = [None, 1, -1, 2, -2, 3, 0]
